@@ -25,7 +25,10 @@ func init() {
 			"(which appends only under output != nil), or in a helper/closure all of whose callers satisfy this for the endpoint they pass; every close(ei.output) is followed on every path by " +
 			"a store to ei.output or removal of the endpoint from endpointsByID; the leave path clears output only under the join-UID match; (own) the endpoint update sent on ei.output is ei.endpointUpd; " +
 			"(synced) each ActivePolicyUpdate/ActiveProfileUpdate send is paired with marking the id in the same endpoint's syncedPolicies/syncedProfiles, removes are sent for ids ranged from the previous synced map; " +
-			"(rejoin) a store of a new output channel comes with fresh syncedPolicies/Profiles/IPSets maps before anything is sent.",
+			"(rejoin) a store of a new output channel comes with fresh syncedPolicies/Profiles/IPSets maps before anything is sent; " +
+			"(cache) the caches follow the dataplane feed independently of clients: for every message kind K, the function the type-switch dispatcher hands a *proto.<K>Remove to deletes from the Processor map " +
+			"that the <K>Update handler fills on every normally returning path (in place, via a callee or a deferred function; only a comma-ok 'absent' branch of that same map is exempt), " +
+			"and every kind whose Update handler fills a Processor map has a Remove handler.",
 		NotDecided: "That the calculation graph sends referenced objects first and removes references before objects (trusted by the Processor); contents of messages (latest version); that getIPSetsSync's " +
 			"set difference is right; server-side forwarding order (gRPC stream); InSync handling.",
 		Assumptions: []string{
@@ -68,6 +71,15 @@ func init() {
 			{Name: "endpoint removal keeps the closed channel registered", File: "felix/policysync/processor.go",
 				Old: "\t\tclose(ei.output)\n\t}\n\tdelete(p.endpointsByID, epID)\n", New: "\t\tclose(ei.output)\n\t}\n",
 				Expect: "C31.live/close/Processor.handleWorkloadEndpointRemove"},
+			{Name: "endpoint dropped from the cache only when a client is joined", File: "felix/policysync/processor.go",
+				Old: "\t\tclose(ei.output)\n\t}\n\tdelete(p.endpointsByID, epID)\n", New: "\t\tclose(ei.output)\n\t\tdelete(p.endpointsByID, epID)\n\t}\n",
+				Expect: "C31.cache/WorkloadEndpointRemove/endpointsByID"},
+			{Name: "service account dropped from the cache once per joined client", File: "felix/policysync/processor.go",
+				Old: "ServiceAccountRemove: update}}\n\t}\n\tdelete(p.serviceAccountByID, id)\n", New: "ServiceAccountRemove: update}}\n\t\tdelete(p.serviceAccountByID, id)\n\t}\n",
+				Expect: "C31.cache/ServiceAccountRemove/serviceAccountByID"},
+			{Name: "namespace remove returns early when nobody listens", File: "felix/policysync/processor.go",
+				Old: "\tlog.WithField(\"NamespaceID\", id).Debug(\"Processing NamespaceRemove\")\n", New: "\tlog.WithField(\"NamespaceID\", id).Debug(\"Processing NamespaceRemove\")\n\tif len(p.updateableEndpoints()) == 0 {\n\t\treturn\n\t}\n",
+				Expect: "C31.cache/NamespaceRemove/namespaceByID"},
 			{Name: "another endpoint's update sent", File: "felix/policysync/processor.go",
 				Old: "Payload: &proto.ToDataplane_WorkloadEndpointUpdate{WorkloadEndpointUpdate: ei.endpointUpd},", New: "Payload: &proto.ToDataplane_WorkloadEndpointUpdate{WorkloadEndpointUpdate: &proto.WorkloadEndpointUpdate{}},",
 				Expect: "C31.own/Processor.maybeSyncEndpoint"},
@@ -141,6 +153,7 @@ func runC31(c *Ctx) {
 	c.Rule("C31.live", "E-GUARD/E-OWN/E-PAIR", "every send on EndpointInfo.output happens where output is known non-nil for that endpoint; close(output) is followed by clearing/replacing it or dropping the endpoint; leave is UID-matched", 24)
 	c.Rule("C31.own", "E-FLOW", "the WorkloadEndpointUpdate sent on ei.output is ei.endpointUpd", 1)
 	c.Rule("C31.synced", "E-PAIR", "policy/profile sends are recorded in the endpoint's synced maps; removes are sent for ids of the previous synced map", 6)
+	c.Rule("C31.cache", "E-PAIR/E-PATH", "each <Kind>Remove feed handler deletes from the Processor cache that the <Kind>Update handler fills, on every returning path (not only when a client is joined)", 6)
 	c.Rule("C31.rejoin", "E-PAIR", "a newly stored output channel starts from empty syncedPolicies/syncedProfiles/syncedIPSets before anything is sent", 3)
 
 	m.collectSends()
@@ -149,6 +162,7 @@ func runC31(c *Ctx) {
 	c31Own(m)
 	c31Synced(m)
 	c31Rejoin(m)
+	c31Cache(m)
 }
 
 func recvTypeName2(f *ssa.Function) string {
@@ -657,8 +671,17 @@ func c31Live(m *c31Model) {
 				if d, ok := isBuiltinCall(i2, "delete"); ok && fieldVar(d.Args[0]) == fByID {
 					return true
 				}
+				// a helper that drops the endpoint on every path
+				if ci, ok := i2.(*ssa.Call); ok {
+					if g := calleeFn(ci.Common()); g != nil && g.Blocks != nil && g.Pkg == fn.Pkg && c31MapDeletesField(g, fByID) {
+						return m.dropsOnEveryPath(g, fByID, map[*ssa.Function]bool{}) == nil
+					}
+				}
 				return false
 			}, nil, func(i2 ssa.Instruction) bool {
+				if _, isRet := i2.(*ssa.Return); isRet && c31DeferredDrop(m, fn, in, fByID) {
+					return false
+				}
 				_, isRet := i2.(*ssa.Return)
 				return isRet && i2.Block() != fn.Recover
 			})
@@ -854,4 +877,247 @@ func c31Rejoin(m *c31Model) {
 	if n == 0 {
 		c.Lost("no store of a new channel to EndpointInfo.output")
 	}
+}
+
+// ----------------------------------------------------------------- cache --
+
+// c31FeedKind: t is *proto.<Kind><suffix> (a dataplane-feed message of
+// felix/proto); returns Kind.
+func c31FeedKind(t types.Type, suffix string) string {
+	pt, ok := t.(*types.Pointer)
+	if !ok {
+		return ""
+	}
+	nt, ok := pt.Elem().(*types.Named)
+	if !ok || nt.Obj().Pkg() == nil || !strings.HasSuffix(nt.Obj().Pkg().Path(), "/felix/proto") {
+		return ""
+	}
+	n := nt.Obj().Name()
+	if !strings.HasSuffix(n, suffix) || n == suffix {
+		return ""
+	}
+	return strings.TrimSuffix(n, suffix)
+}
+
+// c31Asserted: v is the value of a type assertion / type-switch case.
+func c31Asserted(v ssa.Value) (types.Type, bool) {
+	if ex, ok := v.(*ssa.Extract); ok && ex.Index == 0 {
+		v = ex.Tuple
+	}
+	if ta, ok := v.(*ssa.TypeAssert); ok {
+		return ta.AssertedType, true
+	}
+	return nil, false
+}
+
+// feedHandlers: the functions to which a dispatcher hands a feed message it
+// obtained by type assertion, by Kind, for messages named <Kind><suffix>.
+func (m *c31Model) feedHandlers(suffix string) map[string][]*ssa.Function {
+	out := map[string][]*ssa.Function{}
+	for _, f := range m.funcs {
+		allInstrs(f, false, func(_ *ssa.Function, in ssa.Instruction) {
+			ci, ok := in.(ssa.CallInstruction)
+			if !ok {
+				return
+			}
+			g := calleeFn(ci.Common())
+			if g == nil || g.Blocks == nil {
+				return
+			}
+			for _, a := range ci.Common().Args {
+				if t, ok := c31Asserted(a); ok {
+					if k := c31FeedKind(t, suffix); k != "" {
+						dup := false
+						for _, h := range out[k] {
+							dup = dup || h == g
+						}
+						if !dup {
+							out[k] = append(out[k], g)
+						}
+					}
+				}
+			}
+		})
+	}
+	return out
+}
+
+// cacheFieldsWritten: map-typed fields of Processor that fn (or a Processor
+// method it statically reaches) inserts into.
+func (m *c31Model) cacheFieldsWritten(fn *ssa.Function, caches map[*types.Var]bool) map[*types.Var]bool {
+	out := map[*types.Var]bool{}
+	for f := range reachableFuncs([]*ssa.Function{fn}, nil) {
+		if f.Blocks == nil || f.Pkg != fn.Pkg {
+			continue
+		}
+		allInstrs(f, false, func(_ *ssa.Function, in ssa.Instruction) {
+			if mu, ok := in.(*ssa.MapUpdate); ok {
+				if fv := fieldVar(mu.Map); fv != nil && caches[fv] {
+					out[fv] = true
+				}
+			}
+		})
+	}
+	return out
+}
+
+// dropsOnEveryPath: every normally returning path through fn executes
+// delete(<Processor>.fld, …) — in place, in a function it calls or in a deferred
+// function, each of which must itself drop on every path — except paths on
+// which a comma-ok lookup of that same map reported the key absent.  Returns
+// the return instruction reached without a delete, or nil.
+func (m *c31Model) dropsOnEveryPath(fn *ssa.Function, fld *types.Var, seen map[*ssa.Function]bool) ssa.Instruction {
+	if fn == nil || fn.Blocks == nil || len(fn.Blocks[0].Instrs) == 0 {
+		return nil
+	}
+	if seen[fn] {
+		return fn.Blocks[0].Instrs[0] // recursion: not a drop
+	}
+	seen[fn] = true
+	defer delete(seen, fn)
+	drops := func(in ssa.Instruction) bool {
+		if d, ok := isBuiltinCall(in, "delete"); ok {
+			return fieldVar(d.Args[0]) == fld
+		}
+		ci, ok := in.(ssa.CallInstruction)
+		if !ok {
+			return false
+		}
+		if _, isGo := in.(*ssa.Go); isGo {
+			return false
+		}
+		cc := ci.Common()
+		var g *ssa.Function
+		if sf := calleeFn(cc); sf != nil {
+			g = sf
+		} else if mc, ok := cc.Value.(*ssa.MakeClosure); ok && !cc.IsInvoke() {
+			g, _ = mc.Fn.(*ssa.Function)
+		}
+		if g == nil || g.Blocks == nil || g.Pkg != fn.Pkg {
+			return false
+		}
+		return m.dropsOnEveryPath(g, fld, seen) == nil
+	}
+	first := fn.Blocks[0].Instrs[0]
+	if drops(first) {
+		return nil
+	}
+	absent := lookupOkCond(false, func(v ssa.Value) bool { return fieldVar(v) == fld })
+	return c23ReachAvoiding(first, drops, absent, func(in ssa.Instruction) bool {
+		_, isRet := in.(*ssa.Return)
+		return isRet && in.Block() != fn.Recover
+	})
+}
+
+// c31Cache: the Processor's caches follow the dataplane feed, not the clients.
+// For every feed message kind K with a <K>Remove message: the function the
+// dispatcher hands a *proto.<K>Remove to must delete from the Processor map
+// that the <K>Update handler fills, on every normally returning path (it may
+// send to joined clients first, but the delete may not depend on a client
+// being joined); and every kind whose Update handler fills a Processor map has
+// a Remove handler.
+func c31Cache(m *c31Model) {
+	c, p := m.c, m.p
+	tn, _ := p.LookupObj(c31Pkg, "Processor").(*types.TypeName)
+	if tn == nil {
+		c.Lost("type %s.Processor", c31Pkg)
+	}
+	st, _ := tn.Type().Underlying().(*types.Struct)
+	if st == nil {
+		c.Lost("%s.Processor is not a struct", c31Pkg)
+	}
+	caches := map[*types.Var]bool{}
+	for i := 0; i < st.NumFields(); i++ {
+		if _, isMap := st.Field(i).Type().Underlying().(*types.Map); isMap {
+			caches[st.Field(i)] = true
+		}
+	}
+	if len(caches) < 6 {
+		c.Lost("expected >= 6 map-typed cache fields in Processor, found %d", len(caches))
+	}
+	upd, rem := m.feedHandlers("Update"), m.feedHandlers("Remove")
+	if len(upd) < 6 || len(rem) < 6 {
+		c.Lost("expected >= 6 Update and >= 6 Remove feed handlers reached from a type-switch dispatcher, found %d/%d", len(upd), len(rem))
+	}
+	covered := map[*types.Var]bool{}
+	for _, kind := range sortedKeys(upd) {
+		flds := map[*types.Var]bool{}
+		for _, h := range upd[kind] {
+			for fv := range m.cacheFieldsWritten(h, caches) {
+				flds[fv] = true
+			}
+		}
+		if len(flds) == 0 {
+			continue // e.g. delta updates modify a cached object in place
+		}
+		var names []string
+		byName := map[string]*types.Var{}
+		for fv := range flds {
+			names = append(names, fv.Name())
+			byName[fv.Name()] = fv
+		}
+		sort.Strings(names)
+		for _, fname := range names {
+			fld := byName[fname]
+			covered[fld] = true
+			key := "C31.cache/" + kind + "Remove/" + fname
+			hs := rem[kind]
+			if len(hs) == 0 {
+				c.Violate(key, p.Pos(upd[kind][0].Pos()), "%s caches %sUpdate messages in Processor.%s but the dispatcher has no handler for %sRemove: removed objects would be replayed to every later client", fnName(upd[kind][0]), kind, fname, kind)
+				continue
+			}
+			for _, h := range hs {
+				esc := m.dropsOnEveryPath(h, fld, map[*ssa.Function]bool{})
+				site := p.Pos(h.Pos())
+				bad := ""
+				if esc != nil {
+					site = p.Pos(esc.Pos())
+					bad = fmt.Sprintf("%s can return (at %s) without delete(p.%s, …): the removed %s stays cached when that path is taken (e.g. no client joined) and is replayed to the next client that joins", fnName(h), p.Pos(esc.Pos()), fname, kind)
+				}
+				c.Check(esc == nil, key, site, fmt.Sprintf("%s deletes from Processor.%s on every returning path, independent of joined clients", fnName(h), fname), bad)
+			}
+		}
+	}
+	for fv := range caches {
+		if !covered[fv] {
+			c.Undecided("C31.cache/field/"+fv.Name(), p.Pos(fv.Pos()), "Processor.%s is a map that no <Kind>Update feed handler fills: cannot pair it with a Remove handler", fv.Name())
+		}
+	}
+}
+
+// c31MapDeletesField: fn (or a same-package function it statically calls) contains delete(x.fld, …).
+func c31MapDeletesField(fn *ssa.Function, fld *types.Var) bool {
+	for g := range reachableFuncs([]*ssa.Function{fn}, nil) {
+		if g.Blocks == nil || g.Pkg != fn.Pkg {
+			continue
+		}
+		for _, d := range c23MapDeletes(g) {
+			if fieldVar(d.Args[0]) == fld {
+				return true
+			}
+		}
+	}
+	return false
+}
+
+// c31DeferredDrop: a `defer g(…)` that was executed before `at` (dominates it)
+// runs, at every return, a function that deletes from fld on every path.
+func c31DeferredDrop(m *c31Model, fn *ssa.Function, at ssa.Instruction, fld *types.Var) bool {
+	found := false
+	allInstrs(fn, false, func(_ *ssa.Function, in ssa.Instruction) {
+		d, ok := in.(*ssa.Defer)
+		if !ok || found || !instrDominates(d, at) {
+			return
+		}
+		var g *ssa.Function
+		if sf := calleeFn(d.Common()); sf != nil {
+			g = sf
+		} else if mc, ok := d.Common().Value.(*ssa.MakeClosure); ok {
+			g, _ = mc.Fn.(*ssa.Function)
+		}
+		if g != nil && g.Blocks != nil && g.Pkg == fn.Pkg && m.dropsOnEveryPath(g, fld, map[*ssa.Function]bool{}) == nil {
+			found = true
+		}
+	})
+	return found
 }
